@@ -13,6 +13,9 @@ pub const R_NET: &[&str] = &[
     "bar",
     "ads",
     "foo1bar",
+    // a host name as a plain pattern: the same text is a hosts-format line of R_HOSTS (`||a.ads.net^`
+    // there); both readings are loaded into one FilterSet
+    "a.ads.net",
     // left / right anchors
     "|https://ads.net/",
     "|https://ads.net/ads",
@@ -262,5 +265,50 @@ pub fn tags_in(rules: &[&str]) -> Vec<String> {
         .collect();
     v.sort();
     v.dedup();
+    v
+}
+
+/// Request-type options next to a modifier option (sweeps "type options" of C13 / C14): (spelling, canonical type).
+pub const TYPE_OPTS: [(&str, &str); 15] = [
+    ("document", "document"), ("doc", "document"), ("subdocument", "subdocument"), ("frame", "subdocument"),
+    ("xhr", "xmlhttprequest"), ("xmlhttprequest", "xmlhttprequest"), ("image", "image"), ("script", "script"),
+    ("css", "stylesheet"), ("stylesheet", "stylesheet"), ("ping", "ping"), ("other", "other"), ("font", "font"),
+    ("media", "media"), ("object", "object"),
+];
+/// Request type strings and the canonical type each denotes.
+pub const TYPE_REQS: [(&str, &str); 16] = [
+    ("script", "script"), ("image", "image"), ("document", "document"), ("subdocument", "subdocument"),
+    ("xmlhttprequest", "xmlhttprequest"), ("stylesheet", "stylesheet"), ("other", "other"), ("main_frame", "document"),
+    ("sub_frame", "subdocument"), ("font", "font"), ("media", "media"), ("object", "object"), ("ping", "ping"),
+    ("beacon", "ping"), ("xhr", "xmlhttprequest"), ("imageset", "image"),
+];
+
+/// Every list of request-type options of the sweep: (option text, positive canonical types,
+/// negated canonical types).
+pub fn type_option_lists() -> Vec<(String, Vec<&'static str>, Vec<&'static str>)> {
+    let mut v: Vec<(String, Vec<&'static str>, Vec<&'static str>)> = vec![(String::new(), vec![], vec![])];
+    for (sp, c) in TYPE_OPTS {
+        v.push((sp.to_string(), vec![c], vec![]));
+        if c != "document" {
+            v.push((format!("~{}", sp), vec![], vec![c]));
+        }
+    }
+    let base = ["document", "subdocument", "xhr", "image", "script"];
+    let canon = |n: &str| TYPE_OPTS.iter().find(|(s, _)| *s == n).unwrap().1;
+    for a in base {
+        for b in base {
+            if a == b {
+                continue;
+            }
+            v.push((format!("{},{}", a, b), vec![canon(a), canon(b)], vec![]));
+            if b != "document" {
+                v.push((format!("{},~{}", a, b), vec![canon(a)], vec![canon(b)]));
+                v.push((format!("~{},{}", b, a), vec![canon(a)], vec![canon(b)]));
+            }
+            if a != "document" && b != "document" {
+                v.push((format!("~{},~{}", a, b), vec![], vec![canon(a), canon(b)]));
+            }
+        }
+    }
     v
 }
